@@ -187,18 +187,21 @@ fn build(case: &Value) -> (Vec<u8>, bgp::PeerCodec) {
     let corrupt2 = case["corrupt2"].as_str().unwrap();
     let ibgp = case["peer"] == "ibgp";
     let mix = base == "mix";
-    let v6 = base.starts_with("v6");
+    let only = base.starts_with("only");
+    let v6 = base.starts_with("v6") || base == "only6_wd";
     let wd = base.ends_with("_wd");
     let mut attrs: Vec<A> = Vec::new();
     if v6 || mix {
-        attrs.push(mp_reach());
+        if !only {
+            attrs.push(mp_reach());
+        }
         if wd {
             attrs.push(a(0x80, 15, vec![0, 2, 1, 48, 0x20, 0x01, 0x0d, 0xb8, 0x00, 0x09]));
         }
     }
     attrs.push(valid("ORIGIN", as4));
     attrs.push(valid("AS_PATH", as4));
-    if !v6 {
+    if !v6 && !only {
         attrs.push(valid("NEXT_HOP", as4));
     }
     if ibgp {
@@ -226,7 +229,7 @@ fn build(case: &Value) -> (Vec<u8>, bgp::PeerCodec) {
     let declared_attr_len = if corrupt == "block_overrun" { ab.len() + 100 } else { ab.len() };
     body.extend_from_slice(&(declared_attr_len as u16).to_be_bytes());
     body.extend_from_slice(&ab);
-    if !v6 {
+    if !v6 && !only {
         body.extend_from_slice(&[24, 10, 1, 1]);
     }
     let mut msg = vec![0xffu8; 16];
@@ -258,7 +261,7 @@ fn main() {
         }
         let j: Value = serde_json::from_str(&line).unwrap();
         let case = &j["case"];
-        let v6 = case["base"].as_str().unwrap().starts_with("v6");
+        let v6 = case["base"].as_str().unwrap().starts_with("v6") || case["base"] == "only6_wd";
         let mix = case["base"] == "mix";
         let codes: Vec<u8> = ["attr", "attr2"]
             .iter()
